@@ -312,7 +312,7 @@ var replaySeq int
 
 func writeReplay(kind, signature, msg string, cas any) string {
 	if c.replaying {
-		return os.Getenv("VERIF_REPLAY")
+		return currentReplay
 	}
 	dir := os.Getenv("VERIF_REPLAY_DIR")
 	if dir == "" {
@@ -358,6 +358,29 @@ func RunReplay(t *testing.T) {
 	if p == "" {
 		t.Skip("VERIF_REPLAY not set")
 	}
+	if st, err := os.Stat(p); err == nil && st.IsDir() {
+		// regression tier: every saved case of the directory, in name order
+		files, _ := filepath.Glob(filepath.Join(p, "*.json"))
+		sort.Strings(files)
+		c.replaying = true
+		for _, f := range files {
+			replayOne(t, f, 1)
+			Count("regress_cases_replayed", 1)
+		}
+		return
+	}
+	n, _ := strconv.Atoi(os.Getenv("VERIF_REPLAY_REPEAT"))
+	if n < 1 {
+		n = 1
+	}
+	c.replaying = true
+	replayOne(t, p, n)
+}
+
+var currentReplay string
+
+func replayOne(t *testing.T, p string, n int) {
+	currentReplay = p
 	b, err := os.ReadFile(p)
 	if err != nil {
 		fmt.Fprintf(os.Stderr, "replay: %v\n", err)
@@ -375,11 +398,6 @@ func RunReplay(t *testing.T) {
 	if fn == nil {
 		fmt.Fprintf(os.Stderr, "replay: unknown kind %q\n", doc.Kind)
 		os.Exit(2)
-	}
-	c.replaying = true
-	n, _ := strconv.Atoi(os.Getenv("VERIF_REPLAY_REPEAT"))
-	if n < 1 {
-		n = 1
 	}
 	for i := 0; i < n; i++ {
 		fn(t, doc.Case)
